@@ -137,7 +137,7 @@ func init() {
 }
 
 func init() {
-	register(&CheckDef{ID: "C01", Level: "model_checking", Timeout: [2]int{300, 3000},
+	register(&CheckDef{ID: "C01", Level: "model_checking", Timeout: [2]int{300, 3000}, Kinds: []string{"panic", "unwind"},
 		Assumptions: []string{
 			"input stream model zzMemReader: delivers data[:L] (every truncation point) then io.EOF or an injected error",
 			"bufio.Reader, encoding/binary, io.LimitReader interpreted from their real SSA; sync.Pool.Get returns New(); zerolog at the default (panic) level; errors/fmt opaque",
@@ -185,5 +185,42 @@ func init() {
 	register(&CheckDef{ID: "C11", Level: "model_checking", Timeout: [2]int{300, 1200},
 		Assumptions: []string{"input stream model zzMemReader; bufio interpreted; logger at the default level", "one-step lemmas start from an arbitrary chain state (remain values arbitrary non-negative, not assumed consistent)"},
 		Bounds: map[string]interface{}{"lemmas": "chains of depth 2 and 3, every int argument (negative included), 8 operations", "framing": "5 top-level types, well-formed and size-overstating children", "payload": "CMT1..4 with 24 arbitrary payload bytes"},
+	})
+}
+
+func init() {
+	register(&CheckDef{ID: "C13", Level: "model_checking", Timeout: [2]int{400, 1500},
+		Assumptions: []string{"input stream model zzMemReader; bufio interpreted (ReadSlice's bytes.IndexByte is a first-match intrinsic)", "values range over printable ASCII without < > \" ' & = (XML character data without entity references)"},
+		Bounds: map[string]interface{}{"packets": "one rdf:Description with 8 properties (tiff:Make/Model/ImageWidth/Orientation, xmp:CreatorTool/Label/Rating, one foreign), attribute form with both quote characters and 3 junk bytes before the root, element form, dc:creator rdf:Seq with 3 items", "value_lengths": "1, 4, 9 bytes (attribute form), 1, 4, 6 (element form), 3/1/1 digits (numbers)", "outside": "values straddling the 128/256/512-byte look-ahead steps, other namespaces, dates/floats/UUIDs"},
+	})
+}
+
+func init() {
+	register(&CheckDef{ID: "C02", Level: "model_checking", Timeout: [2]int{300, 3000}, Also: []string{"C01"},
+		FnPattern: `^zzC0[12]_(jpeg_hole|jpeg_seq|jpeg_filler|jpeg_trunc|tiff_free|png_free|png_sig|bmff_infe|bmff_iloc|bmff_top|exif_next|exif_subifds|exif_ifdoff)$`,
+		Kinds:     []string{"unwind", "assert"}, AssertOnly: "bytes requested",
+		Assumptions: []string{
+			"termination is decided as an unwinding assertion: a path that exceeds the step budget (60000 SSA instructions for streams of at most ~150 bytes) yields a model that is replayed natively under a 20 s watchdog; only a native hang is a violation",
+			"bytes requested from the underlying reader are counted by the stream model (bufio's fills are real calls on it): requested <= 4*len+64KiB is asserted at every return",
+			"CPU time per byte is represented by the step budget, not by wall-clock",
+		},
+		Bounds: map[string]interface{}{"harnesses": "the C01 entry-point harnesses for jpeg (hole, sequences, filler, truncation), tiff, png, isobmff (infe, iloc, top-level boxes) and exif2 (next-IFD pointer, SubIFDs, first-IFD offset)"},
+	})
+}
+
+func init() {
+	register(&CheckDef{ID: "C14", Level: "model_checking", Timeout: [2]int{300, 1500}, Kinds: []string{"alloc", "assert"}, AssertOnly: "bytes allocated",
+		Assumptions: []string{
+			"ghost allocation counter: every heap Alloc, make (capacity), append growth (2*len+8 elements), []byte<->string conversion and pool New adds its size; stubbed fmt/errors calls add 256 bytes each; zerolog at the default level allocates nothing",
+			"a make() whose byte size can exceed 8 MiB under the path condition is reported as an input-controlled allocation; its replay measures runtime.MemStats.TotalAlloc",
+		},
+		Bounds: map[string]interface{}{"harnesses": "CR3 preview route with an arbitrary 24-byte PRVW header; IFD0 entries (4 id classes) with counts up to 2^32-1; HEIF iloc with arbitrary version/count/entries"},
+	})
+	register(&CheckDef{ID: "C15", Level: "model_checking", Timeout: [2]int{300, 1500}, Kinds: []string{"panic", "stdout", "assert"},
+		Assumptions: []string{
+			"zerolog model (DESIGN.md section 5): a logger is its level; an event is enabled iff event level >= logger level and the logger is not disabled; on an enabled event Object/Array/Stringer/Err call back into the real MarshalZerologObject/Array, String and Error methods of the argument; Send/Msg write to the configured writer",
+			"fmt.Print* is a write to fd 1; under the default configuration any such write is a finding",
+		},
+		Bounds: map[string]interface{}{"levels": "trace(-1) .. disabled(7), case split", "inputs": "IFD0 one-entry skeletons (3 id classes); CR3 moov/uuid with CNCV and a CTBO of arbitrary count and five arbitrary items; for silence: arbitrary streams up to 26 bytes, ftyp + 24 arbitrary bytes"},
 	})
 }
